@@ -91,13 +91,13 @@ fn run(r: &mut Run) -> Result<(), MachineryError> {
     // every character in fixed contexts (catches byte/char confusions and table entries that
     // behave unlike their class representative)
     let t2 = t;
-    r.range("C11/all-characters-in-context", &format!("{}; each in the lines \"cc\", \"acb\", \"c c\", \"a-c\", \"c-b\", \"a c\" x both separators", scalar_desc(t)), scalar_space(t), move |i, cx| {
+    r.range("C11/all-characters-in-context", &format!("{}; each in the lines \"cc\", \"acb\", \"c c\", \"a-c\", \"c-b\", \"a c\", \"ESC]0;c BEL a b-c d\" x both separators", scalar_desc(t)), scalar_space(t), move |i, cx| {
         let c = match scalar_at(t2, i) {
             Some(c) if c != '\x1b' => c,
             _ => return,
         };
         cx.seq = idx_seq(i);
-        for line in [format!("{c}{c}"), format!("a{c}b"), format!("{c} {c}"), format!("a-{c}"), format!("{c}-b"), format!("a {c}")] {
+        for line in [format!("{c}{c}"), format!("a{c}b"), format!("{c} {c}"), format!("a-{c}"), format!("{c}-b"), format!("a {c}"), format!("\x1b]0;{c}\x07a b-c d")] {
             cx.set_input(&line);
             check_line(&line, cx);
         }
